@@ -108,6 +108,10 @@ func (it *Iter[K, V, M]) menu() (mandatory, optional []keyed[K]) {
 		}
 		if _, ok := it.m[k.k]; ok {
 			mandatory = append(mandatory, k)
+		} else {
+			// removed before it was reached: "the corresponding iteration value will not be produced"; if the key
+			// comes back it is a new entry (optional)
+			delete(it.isInit, k.k)
 		}
 	}
 	if len(it.m) > len(mandatory) {
